@@ -141,7 +141,7 @@ impl Exec {
                 self.stats.api_calls += 1;
                 let r = catch_unwind(AssertUnwindSafe(|| self.apply(&txn, &mut ctx, &mut open, &ops[i])));
                 if r.is_err() {
-                    self.viol("C08", "panic", format!("panic inside operation {:?}", short_op(&ops[i])));
+                    self.panic_viol(&format!("panic inside operation {:?}", short_op(&ops[i])));
                     ctx.failed = true;
                 }
                 i += 1;
@@ -170,7 +170,7 @@ impl Exec {
                 let r = catch_unwind(AssertUnwindSafe(|| txn.commit()));
                 match r {
                     Err(_) => {
-                        self.viol("C08", "panic", "commit() panicked".into());
+                        self.panic_viol("commit() panicked");
                         self.io_error_seen = true;
                     }
                     Ok(Ok(())) => {
@@ -234,7 +234,7 @@ impl Exec {
                 self.stats.api_calls += 1;
                 let r = catch_unwind(AssertUnwindSafe(|| txn.abort()));
                 match r {
-                    Err(_) => self.viol("C08", "panic", "abort() panicked".into()),
+                    Err(_) => self.panic_viol("abort() panicked"),
                     Ok(Ok(())) => {}
                     Ok(Err(e)) => {
                         let e = e.to_string();
@@ -248,7 +248,7 @@ impl Exec {
                 self.disk.marker(Marker::Abort);
                 let r = catch_unwind(AssertUnwindSafe(|| drop(txn)));
                 if r.is_err() {
-                    self.viol("C08", "panic", "dropping a write transaction panicked".into());
+                    self.panic_viol("dropping a write transaction panicked");
                 }
                 if self.mode == Mode::Faulty {
                     self.abort_baseline = None;
@@ -359,7 +359,7 @@ impl Exec {
         let needs_durable = !ctx.durable && ctx.pend.psp.values().any(|p| p.seq > seq);
         match r {
             Err(_) => {
-                self.viol("C08", "panic", "restore_savepoint panicked".into());
+                self.panic_viol("restore_savepoint panicked");
                 ctx.failed = true;
             }
             Ok(Ok(())) => {
@@ -914,7 +914,11 @@ impl Exec {
                         self.sp_seq += 1;
                         self.stats.sp_created += 1;
                         let snap = Arc::new(self.state().tables.clone());
-                        self.eph.push(Eph { sp, seq: self.sp_seq, snap, valid: true });
+                        let pins = match self.db.as_ref() {
+                            Some(db) if self.cfg.deep_oracles && self.mode == Mode::Strict => crate::deep::take_pins(db),
+                            _ => None,
+                        };
+                        self.eph.push(Eph { sp, seq: self.sp_seq, snap, valid: true, pins });
                     }
                     Err(SavepointError::InvalidSavepoint) if ctx.dirty => {}
                     Err(e) => {
